@@ -23,8 +23,11 @@ def wellShaped (m : Mat F) (c : Nat) : Bool := m.all (fun r => r.length == c)
 
 def dot (a b : List F) : F := (List.zipWith (· * ·) a b).foldl (· + ·) 0
 
-def transpose (m : Mat F) : Mat F :=
-  (List.range (numCols m)).map fun j => m.map fun r => r.getD j 0
+/-- the `n × rows` transpose of a matrix with `n` columns (short rows read as `0`) -/
+def transposeN (m : Mat F) (n : Nat) : Mat F :=
+  (List.range n).map fun j => m.map fun r => r.getD j 0
+
+def transpose (m : Mat F) : Mat F := transposeN m (numCols m)
 
 def mulVec (m : Mat F) (v : List F) : List F := m.map fun r => dot r v
 
@@ -79,13 +82,15 @@ def gjCol (s : GJ F) (pc : Nat) : GJ F :=
 def gaussJordan (aug : Mat F) (numVars : Nat) : GJ F :=
   (List.range numVars).foldl gjCol { rows := aug, k := 0, pivots := [] }
 
-/-- the solution read off the reduced system: variable `pivots[i]` gets the right-hand side of
-row `i`, free variables are zero -/
-def extract (s : GJ F) (numVars : Nat) : List F :=
-  (List.range numVars).map fun j =>
-    match s.pivots.idxOf? j with
-    | some i => entry s.rows i numVars
-    | none => 0
+/-- value of variable `j` read off the reduced system: the right-hand side of row `i` if `j` is the
+`i`-th pivot column, zero for a free variable -/
+def pick (s : GJ F) (numVars j : Nat) : F :=
+  match s.pivots.idxOf? j with
+  | some i => entry s.rows i numVars
+  | none => 0
+
+/-- the solution read off the reduced system -/
+def extract (s : GJ F) (numVars : Nat) : List F := (List.range numVars).map (pick s numVars)
 
 /-- `solveAugmented`: `none` = inconsistent.  The last column of `aug` is the right-hand side. -/
 def solveAugmented (aug : Mat F) (numVars : Nat) : Option (List F) :=
@@ -99,8 +104,7 @@ def solveRight (m : Mat F) (n : Nat) (b : List F) : Option (List F) :=
 
 /-- `SolveLeft`: solve `x M = r` via the transposed system; `M` is `rows × n` -/
 def solveLeft (m : Mat F) (n : Nat) (r : List F) : Option (List F) :=
-  let mt : Mat F := (List.range n).map fun j => m.map fun row => row.getD j 0
-  solveAugmented (List.zipWith (fun row ri => row ++ [ri]) mt r) m.length
+  solveRight (transposeN m n) m.length r
 
 structure DetState (F : Type) where
   rows : Mat F
